@@ -79,6 +79,13 @@ func c15Payload(e *csEntry) ([]byte, string) {
 	case 4:
 		return []byte("Az~"), "Az~"
 	default:
+		// double-byte sets: ASCII around one character of every byte-length class the set has
+		// (GB18030: two- and four-byte codes, BMP and astral)
+		for _, t := range []string{"A汉字\U0001F600ḿz", "A日本語z", "A漢字z", "A한국어z"} {
+			if b, ok := e.csEncode(t); ok {
+				return b, t
+			}
+		}
 		return []byte("Az"), "Az"
 	}
 }
